@@ -52,6 +52,7 @@ import PercevalModel.Lemmas.C08Sample
 import PercevalModel.Lemmas.C08Mix
 import PercevalModel.Lemmas.C08Hist
 import PercevalModel.Lemmas.C08HistBs
+import PercevalModel.Lemmas.C08Copy
 import PercevalModel.Lemmas.C08MixPos
 import PercevalModel.Lemmas.C08MixLog
 import Mathlib.Algebra.Order.Field.Rat
@@ -1975,6 +1976,92 @@ theorem bs_history_minp_fails_on_current_code :
 end minpHistory
 
 
+/-! ## extension round 9 — `copy()` as a model operation (`Model/C08Copy.lean`)
+
+`IDetector.copy` is `copy.copy(self)`: the copy's `_cache` IS the original's dictionary, `_cache_min_p` is copied by
+value; `_sync_cache()` and `BSLayeredPPNR.clear_cache()` REBIND `_cache` of the object they run on.  The model is a
+heap of dictionaries and objects; the single-object step is the existing `detectInstH true` / `bsInstH true`. -/
+section copyHistory
+variable {K : Type} [Field K] [LinearOrder K]
+
+/-- **`copy()` is transparent, `Detector`**: over ANY history of `obj_i.detect(n)` calls at ANY sequence of `min_p`
+values, interleaved with `obj_i.copy()` calls (each creating a new object that shares the dictionary of `obj_i`), on
+the whole family of copies of one `Detector`, every `detect` of an existing object returns exactly what a FRESH
+detector returns at the CURRENT `min_p` (`heapSpec`: `some (n, d.detect minP n)`), whichever object wrote the shared
+dictionary before. -/
+theorem detect_copy_history_eq_fresh (d : Det) (ops : List (HeapOp K)) :
+    (SM.run (detHeapStep d) (Heap.init ([] : Memo K)) ops).2 =
+      (SM.run (heapSpec fun op : K × ℕ => (op.2, d.detect op.1 op.2)) 1 ops).2 :=
+  heap_run_eq_spec (detView d) (detEarly d) [] (MemoOk d) (DetCellOk d) _
+    (fun m c mk op hA hB => detView_step d m c mk op hA hB)
+    (fun m c mk op h => detView_mark d m c mk op h)
+    (InstH.valid_init (K := K) d).1
+    (fun mk => ⟨fun p _ t ht => ht.valid_empty p, fun _ => rfl⟩) ops
+
+/-- **`copy()` is transparent, `BSLayeredPPNR`**: the same over histories of `detect(n)` at any `min_p`, `copy()` and
+`clear_cache()` on any object of the family. -/
+theorem bs_copy_history_eq_fresh (L : ℕ) (r : K) (ops : List (HeapOp K)) :
+    (SM.run (bsHeapStep L r) (Heap.init ()) ops).2 =
+      (SM.run (heapSpec fun op : K × ℕ => (op.2, bsDetectP op.1 L r op.2)) 1 ops).2 :=
+  heap_run_eq_spec (bsView L r) bsEarly () (fun _ => True) (fun c mk => BsH.Valid L r ⟨c, mk⟩) _
+    (fun m c mk op hA hB => bsView_step L r m c mk op hA hB)
+    (fun m c mk op h => bsView_mark L r m c mk op h)
+    trivial
+    (fun mk => ⟨fun p _ => bsValid_nil p L r, fun _ => rfl⟩) ops
+
+/-- `copy()` really shares: the new object is bound to the SAME dictionary as `obj_i` and carries the same marker (so a
+later write through either object is seen by the other until one of them rebinds) -/
+theorem copy_shares_dictionary {M Out : Type} (det : View M K → K × ℕ → View M K × Out) (early : ℕ → Bool) (m0 : M)
+    (h : Heap M K) (i : ℕ) (hi : i < h.nObjs) :
+    ((heapStep det early m0 h (.copy i)).1.objs h.nObjs).2 = (h.objs i).2 ∧
+      (heapStep det early m0 h (.copy i)).1.nObjs = h.nObjs + 1 ∧
+      (heapStep det early m0 h (.copy i)).1.cells = h.cells := by
+  simp [heapStep, hi]
+
+/-- a write through one object lands in the dictionary the other one reads: the model's heap after
+`obj0.copy(); obj1.detect(n)` with equal markers holds ONE dictionary seen by both -/
+theorem shared_write_is_seen {M Out : Type} (det : View M K → K × ℕ → View M K × Out) (early : ℕ → Bool) (m0 : M)
+    (h : Heap M K) (i j : ℕ) (p : K) (n : ℕ) (hi : i < h.nObjs)
+    (hshare : (h.objs i).2.1 = (h.objs j).2.1) (hmk : (h.objs i).2.2 = some p) :
+    let h' := (heapStep det early m0 h (.detect i p n)).1
+    h'.cells (h'.objs j).2.1 = (det ((h.objs i).1, h.cells (h.objs i).2.1, (h.objs i).2.2) (p, n)).1.2.1 := by
+  by_cases hji : j = i
+  · simp [heapStep, hi, hmk, hji]
+  · simp [heapStep, hi, hmk, hji, hshare]
+
+/-- reading of the specification: an answer can only come from a `detect` of the history and is the fresh answer of
+that call -/
+theorem heapSpec_answers_fresh {Out : Type} (fresh : K × ℕ → Out) (ops : List (HeapOp K)) (k : ℕ) :
+    ∀ o ∈ (SM.run (heapSpec fresh) k ops).2, ∀ x, o = some x →
+      ∃ i p n, HeapOp.detect i p n ∈ ops ∧ x = fresh (p, n) := by
+  induction ops generalizing k with
+  | nil => intro o ho; simp [SM.run] at ho
+  | cons op rest ih =>
+    intro o ho x hx
+    simp only [SM.run, List.mem_cons] at ho
+    rcases ho with ho | ho
+    · cases op with
+      | detect i p n =>
+        simp only [heapSpec] at ho
+        subst hx
+        by_cases hlt : i < k
+        · simp only [hlt, if_true, Option.some.injEq] at ho
+          exact ⟨i, p, n, List.mem_cons_self, ho⟩
+        · simp [hlt] at ho
+      | copy i => simp [heapSpec, hx] at ho
+      | clear i => simp [heapSpec, hx] at ho
+    · obtain ⟨i, p, n, hm, he⟩ := ih _ o ho x hx
+      exact ⟨i, p, n, List.mem_cons_of_mem _ hm, he⟩
+
+/-- the specification answers every `detect` of an existing object: original, then its copy, then a copy of the copy -/
+example (fresh : ℚ × ℕ → ℕ) (p q : ℚ) :
+    (SM.run (heapSpec fresh) 1 [.detect 0 p 3, .copy 0, .detect 1 q 3, .copy 1, .clear 2, .detect 2 p 4,
+      .detect 3 p 4]).2 = [some (fresh (p, 3)), none, some (fresh (q, 3)), none, none, some (fresh (p, 4)), none] := by
+  simp [SM.run, heapSpec]
+
+end copyHistory
+
+
 
 /-! ## non-vacuity and concrete values (evaluated by the kernel over ℚ) -/
 section examples
@@ -2397,8 +2484,9 @@ example : bsStaleOuts 1 (1 / 2 : ℚ) [] [some (1 / 4, 2), some (0, 2), none, so
   * the statistical quality of `BSDistribution.sample`; progress callbacks / cancellation;
   * histories that change `min_p` between calls are PROVED in round 4 for the repaired code
     (`detect_history_minp_eq_fresh`, `bs_history_minp_eq_fresh`; pinned code: `detect_history_minp_pinned_law`,
-    `detect_history_minp_fails_on_current_code`); `copy()` of a detector (the copy shares `_cache`) is validated by the
-    correspondence only; the exact pinned-code law of `BSLayeredPPNR` (with `clear_cache()`) is PROVED in round 6
+    `detect_history_minp_fails_on_current_code`); `copy()` of a detector (the copy shares `_cache`) is a model operation since round 9
+    (heap of dictionaries and objects, `detect_copy_history_eq_fresh`, `bs_copy_history_eq_fresh`: transparent over any
+    history of detect / copy / clear_cache on the family of copies); the exact pinned-code law of `BSLayeredPPNR` (with `clear_cache()`) is PROVED in round 6
     (`bs_history_minp_pinned_law`, `bs_history_minp_pinned_constant`, `bs_history_minp_pinned_clear_refreshes`,
     `bs_history_minp_fails_on_current_code`).
 -/
